@@ -124,6 +124,10 @@ def run(ctx):
     ctx.lane("M1", histories=len(allh), single_call_crash_points=len(singles), events=len(events), rejected=len([b for b in bad if b[0] > 0]),
              unrealisable_crash_points=sorted("%s %s" % (f, list(cp)) for (f, cp) in unreal))
     ctx.sample(dict(lane="M1", history=allh[len(singles) + 1], events=[e for e in events if meta[e["id"]] == allh[len(singles) + 1]][:3]))
+    from .. import suite
+    files = ["tests/test_predict.py"] if ctx.quick else ["tests/test_predict.py", "tests/test_deep_lift_shap.py", "tests/test_ism.py",
+        "tests/test_marginalize.py", "tests/test_ablate.py", "tests/test_space.py", "tests/test_variant_effect.py", "tests/test_product.py"]
+    suite.suite_lane(ctx, files, None, clauses=("model",), workers=2 if ctx.quick else 6)
     ctx.assumptions += ["crash points 'accumulate', and slice/reqgrad/delta outside the first batch of the first run, cannot be "
                         "injected through the public API and are reported as unrealisable (listed in the evidence)",
                         "model state = hook tables of all sub-modules, CRC32 of state_dict bytes, output and torch.autograd.grad "
